@@ -200,6 +200,16 @@ def check(model, rep):
     # the flag's source: Powertrain.self_locking must be the 'any self-locking worm gear' scan (shared with C20)
     from checks.c20 import check_locking
     check_locking(model, rep, model.member('Powertrain', '__init__'), R='C13.flag-source')
+    # ... and the worm's own flag is written by add_worm_gear_mating only: with the documented criterion, and only by a
+    # call that is accepted (a refused call must leave the gears of the mating still in force untouched) - C10's rules
+    from sa.core import Report
+    from checks import c10
+    dep = Report('C10')
+    c10.check(model, dep)
+    for i in dep.instances:
+        if i.rule in ('C10.effects', 'C10.atomic') and 'add_worm_gear_mating' in i.construct:
+            (rep.holds if i.status == 'HOLDS' else (rep.violation if i.status == 'VIOLATION' else rep.cannot))(
+                'C13.flag-source.mating.' + i.rule.split('.')[1], i.construct, i.detail, i.loc)
     rep.require('C13.lock-table', 2)
     rep.require('C13.only-if', 2)
     rep.require('C13.clamp', 2)
